@@ -1084,7 +1084,9 @@ fn run_case(case: &Case, tgt: Tgt, mode: &Mode, out: &mut Out, hist: &mut Hist) 
             // a panic is a C08 matter; it is reported here only as skipped input -- except a panic of the pipeline
             // driver itself (src/compile.rs): the model, which follows that file, predicts an answer for the request,
             // so the case is compared (and disagrees)
-            let driver = p.contains("src/compile.rs");
+            // ... or of Metal's `generate_pipeline` (msl/src/generator/pipeline.rs), whose binding analysis and entry
+            // arguments the model follows too (fix 2ba03a4 turned its `unwrap()` on an unbound global into `UnboundGlobal`)
+            let driver = p.contains("src/compile.rs") || p.contains("msl/src/generator/pipeline.rs");
             out.case(&req, &format!("panic:{}", p), if driver { "ok" } else { "SKIP:panic (C08)" });
         }
         Raw::Ok(ps) => {
